@@ -64,6 +64,36 @@ void check_from_matrix(vh::Ctx& c, int d, const ref::Mat& h, const char* cls) {
   }
 }
 
+// a Hermitian matrix handed over as a sub-matrix VIEW of a larger one (row stride != number of columns), and the
+// conversion written into such a view: both are ordinary gsl_matrix_complex objects
+void check_strided(vh::Ctx& c, Rng& r, int d, const ref::Mat& h, const Vec& comp, const char* cls) {
+  int big = d + 1 + (int)r.pick(3), oi = (int)r.pick(big - d + 1), oj = (int)r.pick(big - d + 1);
+  gsl_matrix_complex* B = gsl_matrix_complex_alloc(big, big);
+  for (int i = 0; i < big; i++) for (int j = 0; j < big; j++) gsl_matrix_complex_set(B, i, j, gsl_complex_rect(777.0 + i, -555.0 - j));
+  gsl_matrix_complex_view v = gsl_matrix_complex_submatrix(B, oi, oj, d, d);
+  ref::Mat stored = rounded(h);
+  for (int i = 0; i < d; i++) for (int j = 0; j < d; j++) gsl_matrix_complex_set(&v.matrix, i, j, gsl_complex_rect((double)stored(i, j).real(), (double)stored(i, j).imag()));
+  SU_vector fromview(&v.matrix);
+  c.eval(); c.count("strided.from_matrix_view");
+  auto want = ref::to_components_l(stored);
+  double S = (double)ref::maxabs(stored) * d;
+  for (int k = 0; k < d * d; k++) if (!(std::fabs((double)((ref::real)fromview[k] - want[k])) <= K * EPS * S)) { c.violation(vh::fmt("C01:from-matrix-view:d%d:wrong-component", d), vh::fmt("[%s] %dx%d view at (%d,%d) of a %dx%d matrix: component %d is %.17g, expected %.17g", cls, d, d, oi, oj, big, big, k, fromview[k], (double)want[k])); break; }
+  // ... and the other direction, into the view; nothing outside the view may change
+  for (int i = 0; i < big; i++) for (int j = 0; j < big; j++) gsl_matrix_complex_set(B, i, j, gsl_complex_rect(777.0 + i, -555.0 - j));
+  SU_vector V = make(comp);
+  V.GetGSLMatrix(&v.matrix);
+  c.eval(); c.count("strided.to_matrix_view");
+  ref::Mat wantm = M(d, comp);
+  double S2 = maxabs(comp) * d;
+  for (int i = 0; i < big; i++) for (int j = 0; j < big; j++) {
+    gsl_complex z = gsl_matrix_complex_get(B, i, j);
+    bool inside = i >= oi && i < oi + d && j >= oj && j < oj + d;
+    if (inside) { ref::cx w = wantm(i - oi, j - oj); if (!(std::abs(ref::cx(GSL_REAL(z), GSL_IMAG(z)) - w) <= K * EPS * S2)) { c.violation(vh::fmt("C01:to-matrix-view:d%d:wrong-entry", d), vh::fmt("[%s] entry (%d,%d) of the view", cls, i - oi, j - oj)); i = big; break; } }
+    else if (GSL_REAL(z) != 777.0 + i || GSL_IMAG(z) != -555.0 - j) { c.violation(vh::fmt("C01:to-matrix-view:d%d:wrote-outside-the-view", d), vh::fmt("[%s] entry (%d,%d) of the enclosing matrix changed", cls, i, j)); i = big; break; }
+  }
+  gsl_matrix_complex_free(B);
+}
+
 bool close(double got, double want, double ulps = 2) { return got == want || std::fabs(got - want) <= ulps * EPS * std::fabs(want); }
 
 void check_ops(vh::Ctx& c, Rng& r, int d, const Vec& a, const Vec& b, double s, const char* cls) {
@@ -211,6 +241,7 @@ void run_C01(vh::Ctx& c) {
       ref::Mat h = M(d, b);
       if (r.coin(0.3)) { ref::Mat u = random_unitary(r, d); h = u * h * ref::dag(u); h = ref::real(0.5) * (h + ref::dag(h)); }
       check_from_matrix(c, d, h, cls_name[cb]);
+      if (idx % 3 == 0) check_strided(c, r, d, h, a, cls_name[cb]);
     }
     check_ops(c, r, d, a, b, s, cls_name[ca]);
     if (idx < 4) c.sample(c.cur_desc.substr(0, 300));
